@@ -192,6 +192,13 @@ class Fuzzer(FandangoParty):
             for sender, chunk in PEER[0].react(len(SENT), str(message)):
                 self.receive(chunk, sender)
 
+class Fuzzer2(FandangoParty):
+    def __init__(self):
+        super().__init__(connection_mode=ConnectionMode.OPEN)
+
+    def send(self, message, recipient):
+        SENT.append((recipient, str(message)))
+
 class Extern(FandangoParty):
     def __init__(self):
         super().__init__(connection_mode=ConnectionMode.EXTERNAL)
@@ -222,6 +229,11 @@ TEMPLATES = [
     {"spec": '<start> ::= <Fuzzer:Extern:ping> (<Extern:Fuzzer:short> | <Extern:Fuzzer:long>) <Extern:Fuzzer:next> <Fuzzer:Extern:bye>\n'
              '<ping> ::= "ping"\n<short> ::= "ab"\n<long> ::= "abcd"\n<next> ::= "c" <w>\n<bye> ::= "bye"\n<w> ::= "e" | "f" | "x"\nwhere str(<next>.<w>) != "x"\n',
      "names": ["<start>"], "replies": {1: [("Extern", "abce", "abzz", "abcx"), ("Extern", "abcdcf", "abcdzz", "abcdcx"), ("Extern", "abcf", "azzz", "abcx")]}},
+    # one external party may answer with message types that are addressed to different fuzzer-side parties
+    {"spec": '<start> ::= <Fuzzer:Extern:ping> (<Extern:Fuzzer:pong> | <Extern:Fuzzer2:pang> | <Extern:Fuzzer:peng>) <Fuzzer:Extern:done>\n'
+             '<ping> ::= "ping\\n"\n<pong> ::= "pong " <d> "\\n"\n<pang> ::= "pang " <d> "\\n"\n<peng> ::= "peng " <d> "\\n"\n<done> ::= "done\\n"\n<d> ::= "1" | "2" | "3"\n'
+             'where int(<pang>.<d>) != 3\nwhere int(<pong>.<d>) != 3\n',
+     "names": ["<start>"], "replies": {1: [("Extern", "pong 1\n", "pung 1\n", "pong 3\n"), ("Extern", "pang 2\n", "pa\n", "pang 3\n"), ("Extern", "peng 3\n", "p\n", "pang 3\n")]}},
 ]
 
 
@@ -339,7 +351,7 @@ def run_worker(args):
                           f"{coq_list([f'({coq_string(s)}, {units_term(v)})' for s, v in sorted(sent_by_peer.items())])}, "
                           f"{coq_list([f'({coq_string(s)}, {units_term(v)})' for s, v in sorted(accepted.items())])})"))
             # python-side clauses: attribution of what the fuzzer sent, constraints, no acceptance of the bad reply
-            fz = [(m.recipient, str(m.msg)) for m in msgs if m.sender == "Fuzzer"]
+            fz = [(m.recipient, str(m.msg)) for m in msgs if m.sender in ("Fuzzer", "Fuzzer2")]
             problems = []
             if fz != [(r, txt) for r, txt in sent][: len(fz)] or (not error_seen and len(fz) != len(sent)):
                 problems.append(f"messages of the fuzzer in the tree {fz} differ from the party.send() calls {list(sent)}")
